@@ -676,31 +676,94 @@ def best_common_point(s1, s2, jolt=None):
     return best, bd
 
 
-# ----------------------------------------------------------------------------- running the narrowb worker
-def run_cases(pid, cases, tag="implb", timeout=1500, jit=True, per_worker_min=4, script="narrowb"):
-    """like narrow.run_cases, for harness/impl/narrowb.py (cases may also be dict(scene=...))"""
+# ----------------------------------------------------------------------------- running the workers
+def warm(pid, script="narrowb"):
+    """Compile every numba kernel the narrow-phase ops need once, in ONE process and without per-call alarm, so that
+    the parallel workers load them from the on-disk cache (the first call after any change of /repo recompiles;
+    that must not be mistaken for a hang)."""
+    import random
+    from . import common as cm
+    rng = random.Random(12345)
+    pairs = [("sphere", "capsule"), ("box", "ellipsoid"), ("cylinder", "cone"), ("disk", "ellipse"), ("mesh", "hull"),
+             ("box", "box"), ("mesh", "mesh")]
+    cases = []
+    for k1, k2 in pairs:
+        for gap in (0.5, -0.2):
+            s1 = nw.gen_collider(rng, k1, "lattice", margin_prob=0.0)
+            s2 = nw.gen_collider(rng, k2, "lattice", margin_prob=0.0)
+            if k1 == "mesh" and k2 == "mesh":
+                s2["margin"] = 0.25
+            u = nw.rand_unit(rng, "random")
+            s2 = nw.translate_spec(s2, nw.support_point(s1, u) + gap * u - nw.support_point(s2, -u))
+            if script == "narrowb":
+                fns = ["gjk_jolt", "original_full", "b_jolt", "b_libccd", "b_mpr", "mpr_pen_full", "epa_full", "jolt_iterations"]
+                ops = [dict(fn=f, timeout=900) for f in fns]
+                ops += [dict(fn="nesterov_full", kw=dict(use_nesterov_acceleration=a), timeout=900) for a in (False, True)]
+                if k1 in nw.PRIMS and k2 in nw.PRIMS:
+                    ops += [dict(fn="nesterov_prim_full", kw=dict(use_nesterov_acceleration=a), timeout=900) for a in (False, True)]
+            else:
+                fns = ["gjk_jolt", "gjk_original", "isect_jolt", "isect_libccd", "isect_mpr", "isect_nesterov", "mpr_pen", "epa"]
+                ops = [dict(fn=f, timeout=900) for f in fns]
+                if k1 in nw.PRIMS and k2 in nw.PRIMS:
+                    ops.append(dict(fn="isect_nesterov_prim", timeout=900))
+            cases.append(dict(c1=s1, c2=s2, ops=ops))
+    r = cm.run_impl(pid, script, dict(cases=cases), timeout=2400, tag="warm")
+    return r["status"]
+
+
+def _is_hang(r):
+    return r.get("exc") == "TIMEOUT" or str(r.get("exc", "")).startswith("PROCESS-")
+
+
+def run_cases(pid, cases, tag="implb", timeout=1500, jit=True, per_worker_min=4, script="narrowb", retry_timeout=120):
+    """like narrow.run_cases, for harness/impl/narrowb.py (cases may also be dict(scene=...)).  A per-call TIMEOUT or a
+    dead worker is CONFIRMED by re-running that case alone with a `retry_timeout` s alarm before it is reported
+    (machine load must not produce a false hang); confirmed results carry retried=True."""
     from . import common as cm
     nwk = min(cm.NCPU, max(1, len(cases) // per_worker_min))
     chunks = [cases[i::nwk] for i in range(nwk)]
     res = cm.run_impl_parallel(pid, script, [dict(cases=c) for c in chunks], timeout=timeout, jit=jit, tag=tag)
     out = [None] * len(cases)
+
+    def dead(c, s):
+        ops = c.get("ops") or [dict(fn="self_collision")]
+        return [dict(fn=o["fn"], exc=f"PROCESS-{s['status'].upper()}", exc_msg=f"rc={s.get('rc')} {s.get('log', '')[-200:]}",
+                     support_calls=0) for o in ops]
     for w, (rr, ch) in enumerate(zip(res, chunks)):
         idxs = list(range(w, len(cases), nwk))
         if rr["status"] == "ok":
             for i, x in zip(idxs, rr["result"]["results"]):
                 out[i] = x
         else:
-            singles = cm.run_impl_parallel(pid, script, [dict(cases=[c]) for c in ch], timeout=240, jit=jit,
-                                           tag=tag + "_iso")
+            singles = cm.run_impl_parallel(pid, script, [dict(cases=[c]) for c in ch], timeout=240, jit=jit, tag=tag + "_iso")
             for i, s, c in zip(idxs, singles, ch):
-                if s["status"] == "ok":
-                    out[i] = s["result"]["results"][0]
-                else:
-                    ops = c.get("ops") or [dict(fn="self_collision")]
-                    out[i] = [dict(fn=o["fn"], exc=f"PROCESS-{s['status'].upper()}",
-                                   exc_msg=f"rc={s.get('rc')} {s.get('log', '')[-200:]}", support_calls=0)
-                              for o in ops]
+                out[i] = s["result"]["results"][0] if s["status"] == "ok" else dead(c, s)
+    # confirm hangs
+    suspects = [i for i, rr in enumerate(out) if any(_is_hang(r) for r in rr)]
+    if suspects:
+        redo = []
+        for i in suspects[:64]:
+            c = json_copy(cases[i])
+            if "scene" in c:
+                c["scene"]["timeout"] = retry_timeout
+            for o in c.get("ops", []):
+                o["timeout"] = retry_timeout
+            redo.append(c)
+        singles = []
+        for k in range(0, len(redo), 4):       # few at a time: the point is to take machine load out of the picture
+            singles += cm.run_impl_parallel(pid, script, [dict(cases=[c]) for c in redo[k:k + 4]],
+                                            timeout=retry_timeout * 14 + 120, jit=jit, tag=tag + "_retry")
+        for i, s, c in zip(suspects[:64], singles, redo):
+            new = s["result"]["results"][0] if s["status"] == "ok" else dead(c, s)
+            for r in new:
+                r["retried"] = True
+            out[i] = new
     return out
+
+
+def json_copy(x):
+    import json
+    return json.loads(json.dumps(x))
 
 
 # ----------------------------------------------------------------------------- extreme colliders (C09, C19)
@@ -756,3 +819,52 @@ def flat_collider(rng):
         P = [[-1, -1, 0], [1, -1, 0], [1, 1, 0], [-1, 1, 0], [0, 0, 0]]
     V = (sz * np.array(P, float)) @ R.T + c
     return dict(kind="hull", vertices=V.tolist(), flat=k)
+
+
+def load_case(path):
+    """a corpus / replay file: {"case": {...}} or the case itself"""
+    import json
+    d = json.loads(open(path).read())
+    c = d.get("case", d)
+    c.setdefault("meta", {})
+    return c
+
+
+def bigmesh_pair(rng):
+    """F-M1's witness class: a MESH with large coordinates (radius 10..100) and a small collider in front of the
+    middle of one of its faces, so that the GJK search direction becomes that face's normal up to rounding and
+    several mesh vertices are equally extreme (mesh hill climbing)."""
+    from scipy.spatial import ConvexHull
+    R = nw.rand_rotation(rng, rng.choice(["random", "lattice"]))
+    c = nw.rand_center(rng, "random", 5.0)
+    size = rng.choice([10.0, 30.0, 70.0, 100.0])
+    n = rng.choice([4, 4, 6, 8, 12])
+    if rng.random() < 0.3:
+        pts = [[size * a, size * b, size * cc] for a in (-0.5, 0.5) for b in (-0.5, 0.5) for cc in (-0.5, 0.5)]
+    else:
+        pts = []
+        for _ in range(n):
+            v = np.array([rng.gauss(0, 1) for _ in range(3)])
+            pts.append((v / np.linalg.norm(v) * size * rng.uniform(0.6, 1.0)).tolist())
+    s1 = dict(kind="mesh", pose=nw.pose_of(R, c), vertices=pts)
+    if rng.random() < 0.2:
+        s1["margin"] = rng.choice([0.125, 0.5])
+    W = np.array(pts) @ np.array(R).T + np.array(c)
+    try:
+        hull = ConvexHull(W)
+    except Exception:  # noqa
+        return None
+    f = rng.randrange(len(hull.simplices))
+    tri = W[hull.simplices[f]]
+    nrm = hull.equations[f][:3]
+    wts = rng.choice([[1 / 3, 1 / 3, 1 / 3], [0.5, 0.5, 0.0], [0.6, 0.3, 0.1], [1.0, 0.0, 0.0]])
+    q = sum(w * v for w, v in zip(wts, tri))
+    k2 = rng.choice(nw.KINDS)
+    s2 = nw.gen_collider(rng, k2, "moderate", spread=1.0, margin_prob=0.1,
+                         sizes=[0.02, 0.1, 0.5, 1.5] if rng.random() < 0.7 else None)
+    g = rng.choice([0.5, 0.1, 1e-3, 1e-6, 0.0, -1e-3, -0.1]) + s1.get("margin", 0.0)
+    s2 = nw.translate_spec(s2, q + g * nrm - nw.support_point(s2, -nrm))
+    meta = dict(stream="bigmesh", kinds=["mesh", k2], gap=g, dir=nrm.tolist())
+    if rng.random() < 0.5:
+        return s2, s1, dict(meta, kinds=[k2, "mesh"])
+    return s1, s2, meta
